@@ -198,7 +198,20 @@ func c08Pairs(c *Ctx, p *Prog, ms map[string]*ssa.Function) {
 				}
 			}
 		}
-		c.Check(okCopy, "C08-R2", "SetDirty(false):copies:"+sfx, p.pos(setd.Pos()), "last"+sfx+" = curr"+sfx+" on the clean branch")
+		// and nothing else is ever stored there on the clean branch: the snapshot must be what Dirty compares with
+		other := ""
+		for _, s := range storesTo(setd, cellOwner, "last"+sfx) {
+			if ref, _, ok := loadedField(s.Val); ok && ref.Name == "curr"+sfx {
+				continue
+			}
+			g := guardsAt(s.Block())
+			if k, isK := constInt(s.Val); isK && k == 0 && (hasAtom(g, Atom{"dirty", "==", "true"}) || hasAtom(g, Atom{"dirty", "!=", "false"})) {
+				continue // the force-dirty marker
+			}
+			other += "last" + sfx + " also receives " + valName(s.Val) + " at " + p.pos(s.Pos()) + "; "
+			okCopy = false
+		}
+		c.Check(okCopy, "C08-R2", "SetDirty(false):copies:"+sfx, p.pos(setd.Pos()), "last"+sfx+" = curr"+sfx+" on the clean branch, and nothing else "+other)
 		// Resize copies curr
 		okRes := false
 		for _, s := range storesTo(resize, cellOwner, "curr"+sfx) {
